@@ -47,7 +47,7 @@ def _join_sorted(items: Iterable[str]) -> str:
     return "".join(sorted(items))
 
 
-_END_PATTERN = r"{}$".format(
+_END_PATTERN = r"{}[ \t]*$".format(
     _join_sorted(
         {
             r"(?:{})*".format(item)  # pylint: disable=consider-using-f-string
